@@ -25,25 +25,30 @@ class LxmlEventHandler(XmlHandler):
         Returns:
             An instance of the class type representing the parsed content.
         """
+        clear = True
         if isinstance(source, (etree._ElementTree, etree._Element)):
             # The tree belongs to the caller, leave it intact
-            ctx = etree.iterwalk(source, EVENTS)
-            return self.process_context(ctx, ns_map, clear=False)
-
-        if self.parser.config.process_xinclude:
+            try:
+                ctx = etree.iterwalk(source, EVENTS)
+            except UnicodeDecodeError as e:
+                raise ParserError(e)
+            clear = False
+        elif self.parser.config.process_xinclude:
             try:
                 tree = etree.parse(source, base_url=self.parser.config.base_url)  # nosec
             except OSError as e:
-                # lxml reports undecodable bytes in an existing file this way
-                if isinstance(source, str) and os.path.isfile(source):
-                    raise ParserError(e)
-                raise
+                # lxml reports undecodable bytes this way, only a missing
+                # file is a problem of the environment
+                if isinstance(source, str) and not os.path.isfile(source):
+                    raise
+                raise ParserError(e)
 
             try:
                 tree.xinclude()
+                # The document element may have been an include directive
+                ctx = etree.iterwalk(tree, EVENTS)
             except (etree.XIncludeError, ValueError) as e:
                 raise ParserError(e)
-            ctx = etree.iterwalk(tree, EVENTS)
         else:
             ctx = etree.iterparse(
                 source,
@@ -54,7 +59,7 @@ class LxmlEventHandler(XmlHandler):
             )
 
         try:
-            return self.process_context(ctx, ns_map)
+            return self.process_context(ctx, ns_map, clear=clear)
         except UnicodeDecodeError as e:
             # The recovering parser keeps character references to surrogates,
             # the content of such a node can't be read
